@@ -31,6 +31,67 @@ def dump_grammars(binary, dialects):
     return res
 
 
+def pem_stage(ctx, dialects=None, with_cases=True):
+    """Called from the `post` hook of C14 (closure theorems about the interpreter) and C02 (interpreter vs real
+    parser): regenerate the Pem grammar files from the built tree, check their generated theorems, and replay
+    the interpreter on recorded parses. Adds obligations / violations to the calling check's result."""
+    R = ctx["R"]
+    tier, seed = ctx["tier"], ctx["seed"]
+    if ctx.get("replay"):
+        return
+    if dialects is None:
+        if tier == "thorough":
+            dialects = ALL
+        else:   # quick: ansi + 3 dialects rotating with the seed
+            rest = [d for d in ALL if d != "ansi"]
+            k = seed % len(rest)
+            dialects = ["ansi"] + [rest[(k + i * 4) % len(rest)] for i in range(3)]
+    gr = dump_grammars(ctx["bin"], dialects)
+    info = {}
+    for d in dialects:
+        ok, log = gr[d]
+        ctx["extra_obligations"] += 2          # closure (or exact dangling list) + its corollary
+        if ok:
+            ctx["extra_discharged"] += 2
+        else:
+            R.violation("translator-obligation", dict(what="Pem grammar of %s: generated theorems (pem_closed / pem_dangling_exact) or the dump do not check" % d,
+                                                      file="coq/gen/PemGrammar_%s.v" % d, log=log[-2000:]), False)
+        for line in log.splitlines():
+            if line.startswith("{") and '"dialect"' in line:
+                try:
+                    info[d] = json.loads(line)
+                except ValueError:
+                    pass
+    cov = dict(pem_dialects=dialects, pem_graphs=[dict(dialect=d, nodes=i.get("nodes"), closed=(not i.get("dangling") and i.get("brackets_closed")),
+                                                       dangling=i.get("dangling")) for d, i in sorted(info.items())])
+    if with_cases:
+        good = [d for d in dialects if gr[d][0]]
+        outp = os.path.join(vlib.CACHE, "runs", "PEM-%d.jsonl" % os.getpid())
+        os.makedirs(os.path.dirname(outp), exist_ok=True)
+        rc, out = vlib.harness_run(ctx["bin"], "pem", tier, seed, outp, ["--dialects", ",".join(good)])
+        recs = vlib.read_jsonl(outp) if os.path.exists(outp) else []
+        cases = [r for r in recs if r.get("t") == "case"]
+        if rc != 0 or not cases:
+            R.violation("broken-correspondence", dict(what="sqv pem produced no cases", rc=rc, log=out[-1500:]), False)
+        mism, errors, nsh = vlib.replay_cases("PEM", "Corr.Pem", cases, shard=20, timeout=1500,
+                                              group_imports=lambda g: "From SqGen Require Import PemGrammar_%s." % g[len("pem_"):])
+        by_id = {c["id"]: c for c in cases}
+        for e in errors:
+            R.violation("broken-correspondence", dict(what="Pem replay did not evaluate", log=e[-1500:]), False)
+        for i in mism[:20]:
+            c = by_id[i]
+            R.violation("broken-correspondence", dict(correspondence="Corr.Pem.check_%s (Gallina parser-engine interpreter vs the real root MatchResult)" % c["group"],
+                                                      sample=c["sample"]), False)
+        cov.update(pem_cases=len(cases), pem_mismatches=len(mism), pem_shards=nsh,
+                   pem_counts=[r.get("v") for r in recs if r.get("t") == "counts"])
+        ctx["extra_evaluations"] = ctx.get("extra_evaluations", 0) + len(cases)
+        try:
+            os.remove(outp)
+        except OSError:
+            pass
+    ctx.setdefault("extra_coverage", {}).update(cov)
+
+
 def run(cfg, tier, seed, replay=None):
     R = vlib.Result("PEM", tier, seed, "translation_validation")
     cb = vlib.coq_build([], ["theories/Corr/Pem.vo"])
